@@ -501,6 +501,15 @@ Proof.
   - exists [("rr/node1"%string, 4); ("rr/node10"%string, 4)], (fun _ => 6). split; [reflexivity|]. split; [intros; lia|]. split; [lia|]. vm_compute. reflexivity.
 Qed.
 
+(* rotation onto an existing actor and away again orphans that actor's index entries; refusing such a target keeps the history whole *)
+Definition rot_hist (refuse : bool) : astate :=
+  let s0 := mkA [(1, [7]); (9, [5])] [(7, 1); (5, 9)] in      (* validator owner 1 holds permission 7, the unused address 9 holds 5 *)
+  a_rotate refuse (a_rotate refuse s0 1 9) 9 20.               (* 1 -> 9 (onto the actor), then 9 -> 20 (away) *)
+Lemma rotation_by_flag : forall b : bool,
+  if b then (a_enumerate 5 (a_actors (rot_hist b)) (a_index (rot_hist b)) = Ok [20] /\ a_enumerate 7 (a_actors (rot_hist b)) (a_index (rot_hist b)) = Ok [1])
+  else a_enumerate 5 (a_actors (rot_hist b)) (a_index (rot_hist b)) = Panic "actor-missing".
+Proof. intros [|]; vm_compute; [split; reflexivity|reflexivity]. Qed.
+
 (* ------------------------------------------------------------------ upgrade: the only deliberate stop *)
 Lemma upgrade_halt_only_when_due : forall due processed instate h skip,
   is_panic (upgrade_begin due processed instate h skip) = true -> due = true /\ processed = true.
